@@ -60,6 +60,7 @@ class ProgressBar(object):
         self._format = None
         self._internal_format = None
         self._format_line_count = 0
+        self._displayed_line_count = None
         self._last_messages_length = 0
         self._should_overwrite = True
         self._min_seconds_between_redraws = 0
@@ -327,20 +328,27 @@ class ProgressBar(object):
                 if self._last_messages_length > len(self._io.remove_format(line)):
                     lines[i] = line.ljust(self._last_messages_length, "\x20")
 
+        # the frame standing on the output may have been written with another format
+        line_count = self._displayed_line_count
+        if line_count is None:
+            line_count = self._format_line_count
+
         if self._should_overwrite:
             if isinstance(self._io, SectionOutput):
                 lines_to_clear = (
-                    int(math.floor(len(lines) / self._terminal.width))
-                    + self._format_line_count
-                    + 1
+                    int(math.floor(len(lines) / self._terminal.width)) + line_count + 1
                 )
                 self._io.clear(lines_to_clear)
             else:
                 # move back to the beginning of the progress bar before redrawing it
                 self._io.write("\x0D")
 
-                if self._format_line_count:
-                    self._io.write("\033[{}A".format(self._format_line_count))
+                if line_count:
+                    self._io.write("\033[{}A".format(line_count))
+
+                if line_count != self._format_line_count:
+                    # a frame with another number of lines: erase what stands there
+                    self._io.write("\033[0J")
         elif self._write_count > 0:
             # move to new line
             self._io.write_line("")
@@ -355,6 +363,7 @@ class ProgressBar(object):
             if length > self._last_messages_length:
                 self._last_messages_length = length
 
+        self._displayed_line_count = self._format_line_count
         self._last_write_time = time.time()
         self._write_count += 1
         self._displayed_step = self._step
